@@ -6,6 +6,9 @@ args = [a for a in sys.argv[1:] if not a.startswith("--")]
 tier = "quick"
 for a in sys.argv[1:]:
     if a.startswith("--tier="): tier = a.split("=")[1]
+import shutil, tempfile
+_ev_backup = tempfile.mkdtemp(prefix="ev_backup_", dir="/var/tmp")
+shutil.copytree(V + "/evidence", _ev_backup + "/evidence")
 res = {}
 for sid in sorted(os.listdir(V + "/seeded")):
     if args and not any(sid.startswith(a) for a in args): continue
@@ -26,3 +29,5 @@ for sid in sorted(os.listdir(V + "/seeded")):
     finally:
         subprocess.run("git -C /repo checkout -- .", shell=True)
 json.dump(res, open("/tmp/seed_out/run_seeds_last.json", "w"), indent=1)
+# evidence files are written by every run: put the clean-tree ones back
+shutil.rmtree(V + "/evidence"); shutil.copytree(_ev_backup + "/evidence", V + "/evidence"); shutil.rmtree(_ev_backup)
